@@ -231,7 +231,20 @@ def run(ctx):
     pm = [n for n, x in common.nodes_calling(ctx, dm, gdm, common.calls_named('process_message'))]
     tests = [c for c in gdm.nodes if c.kind == 'cond' and S.eval_cond(c.ast) is not None
              and S.eval_cond(c.ast)[1] == frozenset(['DELETED'])]
-    ctx.check(bool(pm) and all(gdm.exit.id not in gdm.reach([p], blocked_nodes=tests, follow_exc=False) for p in pm),
+    # a branch of another test of the same state that excludes DELETED has nothing left to observe (`match x.state: case REKEYED..:
+    # .. case DELETED: ..` is one chain) - as long as no datagram is processed again behind it
+    subj_of = {S.eval_cond(c.ast)[0] for c in tests}
+    decided = []
+    for c in gdm.nodes:
+        ev = S.eval_cond(c.ast) if c.kind == 'cond' else None
+        if ev is None or ev[0] not in subj_of or c in tests:
+            continue
+        for lab, m in c.succ:
+            inside = ev[1] if lab == 'T' else S.all - ev[1] if lab == 'F' else None
+            if inside is not None and 'DELETED' not in inside and not any(
+                    q.id in gdm.reach([m], follow_exc=False) for q in pm):
+                decided.append((c.id, lab, m.id))
+    ctx.check(bool(pm) and all(gdm.exit.id not in gdm.reach([p], blocked_edges=decided, blocked_nodes=tests, follow_exc=False) for p in pm),
               'P4', 'after every processed datagram the controller tests the IKE_SA for DELETED',
               key=('P4', 'dispatch-observes'), site=ctx.site(dm, dm.node))
     ml = ctx.func('ikesacontroller.IkeSaController.main_loop')
